@@ -106,6 +106,9 @@ func TestMain(m *testing.M) {
 			"Every live listener is sampled after every action, after every move and at every rotation instant passed: a reference client (plain quic-go, ALPN h3) performs a QUIC/TLS handshake and records rawCerts[0]; Listener.Multiaddr() is decoded here. "+
 			"Oracle per listener and instant: the handshake completes; NotBefore+skew <= t <= NotAfter-skew; lifetime <= 14d; served SHA-256 among the advertised certhashes; served bytes identical to a certificate of an undisturbed certManager with the same key (its current one; exactly at a rotation instant also its previous one); "+
 			"every address learnt from this listener in the current or the previous period verifies the served leaf (real verifyRawCerts on virtual time + membership recomputed). Nothing is demanded of the Listen calls themselves. "+
+			"At the same instants the address of the running transport is ALSO obtained through Transport.AddCertHashes(bare /webtransport address) (the entry point swarm.AddCertHashes / the basic host use for observed, NAT-mapped and user-provided addresses): "+
+			"rapid draws the bare address {public ip4 | local ip4 | dns4 | ip6}, the step from which it is called (60% from the first step, 30% from a uniform later step = first call after k rollovers, 10% never = control), a call before the first Listen (25%, nothing demanded) and a second bare address completed from a uniform later step; "+
+			"with at least one live listener, the certhashes of the returned address must contain the SHA-256 of what every live listener serves now, and every address so obtained at any sampled instant of the current or the previous period must verify the certificate served now (membership + real verifyRawCerts), i.e. it held the hash of the certificate served next - after 0..n rollovers since the first call. "+
 			"Non-trivial = some Listen call failed and a listener of the same transport was afterwards observed through at least one rollover; distinct = (key kind, offset class, start class, step classes, rollovers).",
 		"crypto/x509 parsing and crypto/sha256 are trusted (used by the oracle)",
 		"the clock-skew allowance is the exported constant (1h); the 14-day bound is taken from the statement",
